@@ -15,6 +15,7 @@ import (
 	"hash/crc64"
 	"io"
 	"strings"
+	"sync"
 
 	"github.com/jdillenkofer/pithos/internal/checksumutils"
 	"github.com/jdillenkofer/pithos/internal/verifx"
@@ -237,6 +238,61 @@ func c35Size(r *verifx.Rng, max int) int {
 	return r.Intn(max + 1)
 }
 
+type c35StreamResult struct {
+	got     []byte // the bytes the schedule delivered
+	stream  string // "<md5> <crc32> <crc32c> <crc64nvme> <sha1> <sha256> <bytesRead>" as CalculateChecksumsStreaming returned them
+	oneshot string // the same from one-shot standard-library hashing of got
+	err     string
+}
+
+// c35RunStream runs CalculateChecksumsStreaming over data under the read schedule.
+func c35RunStream(data []byte, sc c35Schedule) c35StreamResult {
+	rd := &c35SchedReader{data: data, next: sc.sizes, eofWithData: sc.eofWithData, zeroBudget: 64}
+	delivered := 0
+	n, cs, err := checksumutils.CalculateChecksumsStreaming(context.Background(), rd, func(r io.Reader) error {
+		buf := make([]byte, sc.bufSize)
+		idle := 0
+		for {
+			want := len(buf)
+			if sc.limit >= 0 && sc.limit-delivered < want {
+				want = sc.limit - delivered
+			}
+			if want == 0 {
+				return nil
+			}
+			m, e := r.Read(buf[:want])
+			delivered += m
+			if e == io.EOF {
+				return nil
+			}
+			if e != nil {
+				return e
+			}
+			if m == 0 {
+				idle++
+				if idle > 1000 {
+					return io.ErrNoProgress
+				}
+			}
+		}
+	})
+	res := c35StreamResult{got: data[:delivered]}
+	if err != nil {
+		res.err = strings.ReplaceAll(err.Error(), " ", "_")
+		return res
+	}
+	res.stream = fmt.Sprintf("%s %s %s %s %s %s %d", c35HexOfETag(cs.ETag), c35HexOfB64(cs.ChecksumCRC32),
+		c35HexOfB64(cs.ChecksumCRC32C), c35HexOfB64(cs.ChecksumCRC64NVME), c35HexOfB64(cs.ChecksumSHA1),
+		c35HexOfB64(cs.ChecksumSHA256), *n)
+	m5 := md5.Sum(res.got)
+	s1 := sha1.Sum(res.got)
+	s256 := sha256.Sum256(res.got)
+	res.oneshot = fmt.Sprintf("%s %s %s %s %s %s %d", verifx.Hex(m5[:]), verifx.Hex(c35StdCrc("crc32", res.got)),
+		verifx.Hex(c35StdCrc("crc32c", res.got)), verifx.Hex(c35StdCrc("crc64nvme", res.got)), verifx.Hex(s1[:]),
+		verifx.Hex(s256[:]), len(res.got))
+	return res
+}
+
 func runC35(args []string) {
 	f := verifx.ParseFlags("c35", args, 420, 3000)
 	out := verifx.NewOut()
@@ -317,54 +373,134 @@ func runC35(args []string) {
 	streamCase := func(seed uint64, data []byte, sc c35Schedule) {
 		do(seed, func() {
 			out.Line("kind stream")
-			rd := &c35SchedReader{data: data, next: sc.sizes, eofWithData: sc.eofWithData, zeroBudget: 64}
-			delivered := 0
-			n, cs, err := checksumutils.CalculateChecksumsStreaming(context.Background(), rd, func(r io.Reader) error {
-				buf := make([]byte, sc.bufSize)
-				idle := 0
-				for {
-					want := len(buf)
-					if sc.limit >= 0 && sc.limit-delivered < want {
-						want = sc.limit - delivered
-					}
-					if want == 0 {
-						return nil
-					}
-					m, e := r.Read(buf[:want])
-					delivered += m
-					if e == io.EOF {
-						return nil
-					}
-					if e != nil {
-						return e
-					}
-					if m == 0 {
-						idle++
-						if idle > 1000 {
-							return io.ErrNoProgress
-						}
-					}
-				}
-			})
-			got := data[:delivered]
-			out.Line("size %d", len(got))
+			res := c35RunStream(data, sc)
+			out.Line("size %d", len(res.got))
 			out.Line("sched %s", sc.name)
-			if len(got) <= 4096 {
-				out.Line("data %s", verifx.Hex(got))
+			if len(res.got) <= 4096 {
+				out.Line("data %s", verifx.Hex(res.got))
 			}
-			if err != nil {
-				out.Line("error %s", strings.ReplaceAll(err.Error(), " ", "_"))
+			if res.err != "" {
+				out.Line("error %s", res.err)
 				return
 			}
-			out.Line("stream %s %s %s %s %s %s %d", c35HexOfETag(cs.ETag), c35HexOfB64(cs.ChecksumCRC32),
-				c35HexOfB64(cs.ChecksumCRC32C), c35HexOfB64(cs.ChecksumCRC64NVME), c35HexOfB64(cs.ChecksumSHA1),
-				c35HexOfB64(cs.ChecksumSHA256), *n)
-			m5 := md5.Sum(got)
-			s1 := sha1.Sum(got)
-			s256 := sha256.Sum256(got)
-			out.Line("oneshot %s %s %s %s %s %s %d", verifx.Hex(m5[:]), verifx.Hex(c35StdCrc("crc32", got)),
-				verifx.Hex(c35StdCrc("crc32c", got)), verifx.Hex(c35StdCrc("crc64nvme", got)), verifx.Hex(s1[:]),
-				verifx.Hex(s256[:]), len(got))
+			out.Line("stream %s", res.stream)
+			out.Line("oneshot %s", res.oneshot)
+		})
+	}
+	// Re-entrancy: the real Combine* functions called from several goroutines at once on
+	// independent inputs. Every result is compared with the model (tie) and with the CRC of the
+	// concatenation (judge): the implementation must be a FUNCTION of its arguments.
+	combConcCase := func(seed uint64, r *verifx.Rng, goroutines, calls int, fixedAlg string) {
+		type vec struct {
+			alg           string
+			la, lb        int64
+			ca, cb, whole []byte
+			tieOnly       bool
+			got           []byte
+			panicked      string
+		}
+		work := make([][]*vec, goroutines)
+		for g := range work {
+			for i := 0; i < calls; i++ {
+				alg := fixedAlg
+				if alg == "" {
+					alg = verifx.Pick(r, c35Algs)
+				}
+				v := &vec{alg: alg}
+				if r.Chance(1, 5) { // arbitrary registers, long length: a long-running combine
+					w := 4
+					if alg == "crc64nvme" {
+						w = 8
+					}
+					v.ca, v.cb, v.lb, v.tieOnly = r.Bytes(w), r.Bytes(w), int64(r.Next()>>uint(24+r.Intn(30))), true
+				} else {
+					a, b := c35Pattern(r, c35Size(r, 3000)), c35Pattern(r, c35Size(r, 3000))
+					v.la, v.lb = int64(len(a)), int64(len(b))
+					v.ca, v.cb = c35RepoCrc(alg, a), c35RepoCrc(alg, b)
+					v.whole = c35StdCrc(alg, append(append([]byte{}, a...), b...))
+				}
+				work[g] = append(work[g], v)
+			}
+		}
+		do(seed, func() {
+			out.Line("kind combconc")
+			out.Line("goroutines %d", goroutines)
+			var start, done sync.WaitGroup
+			start.Add(1)
+			for g := range work {
+				done.Add(1)
+				go func(vs []*vec) {
+					defer done.Done()
+					start.Wait()
+					for _, v := range vs {
+						func() {
+							defer func() {
+								if p := recover(); p != nil {
+									v.panicked = strings.ReplaceAll(fmt.Sprint(p), " ", "_")
+								}
+							}()
+							v.got = c35Combine(v.alg, v.ca, v.cb, v.lb)
+						}()
+					}
+				}(work[g])
+			}
+			start.Done()
+			done.Wait()
+			for g, vs := range work {
+				for _, v := range vs {
+					if v.panicked != "" {
+						out.Line("panic goroutine%d:%s", g, v.panicked)
+						continue
+					}
+					whole := "-"
+					if !v.tieOnly {
+						whole = verifx.Hex(v.whole)
+					}
+					out.Line("cg %d %s %d %d %s %s %s %s", g, v.alg, v.la, v.lb, verifx.Hex(v.ca), verifx.Hex(v.cb), verifx.Hex(v.got), whole)
+				}
+			}
+		})
+	}
+	// The streaming hasher from several goroutines at once (it shares a buffer pool).
+	streamConcCase := func(seed uint64, r *verifx.Rng, goroutines int, sizes []int) {
+		type job struct {
+			data []byte
+			sc   c35Schedule
+			res  c35StreamResult
+		}
+		jobs := make([]*job, goroutines)
+		for g := range jobs {
+			size := sizes[g%len(sizes)]
+			scs := c35Schedules(r, size)
+			jobs[g] = &job{data: r.Bytes(size), sc: verifx.Pick(r, scs)}
+		}
+		do(seed, func() {
+			out.Line("kind streamconc")
+			out.Line("goroutines %d", goroutines)
+			var start, done sync.WaitGroup
+			start.Add(1)
+			for _, j := range jobs {
+				done.Add(1)
+				go func(j *job) {
+					defer done.Done()
+					defer func() {
+						if p := recover(); p != nil {
+							j.res.err = "panic:" + strings.ReplaceAll(fmt.Sprint(p), " ", "_")
+						}
+					}()
+					start.Wait()
+					j.res = c35RunStream(j.data, j.sc)
+				}(j)
+			}
+			start.Done()
+			done.Wait()
+			for g, j := range jobs {
+				if j.res.err != "" {
+					out.Line("error goroutine%d:%s", g, j.res.err)
+					continue
+				}
+				out.Line("sc %d %d %s %s %s", g, len(j.res.got), j.sc.name, j.res.stream, j.res.oneshot)
+			}
 		})
 	}
 
@@ -419,12 +555,29 @@ func runC35(args []string) {
 	combTieCase(2101, dr, 0x5555555555555555)
 	combTieCase(2102, dr, 0x2AAAAAAAAAAAAAAA)
 	// streaming: every schedule at the block-size boundaries
-	for _, size := range []int{0, 1, 2, 4095, c35BlockSize - 1, c35BlockSize, c35BlockSize + 1, 2 * c35BlockSize, 2*c35BlockSize + 1, 3*c35BlockSize - 1} {
+	// (k*blockSize-1, exact, +1 for every k up to kMax, under every schedule / read chunk size)
+	sizes := []int{0, 1, 2, 4095}
+	kMax := 4
+	if thorough {
+		kMax = 8
+	}
+	var aroundBlocks []int
+	for kk := 1; kk <= kMax; kk++ {
+		aroundBlocks = append(aroundBlocks, kk*c35BlockSize-1, kk*c35BlockSize, kk*c35BlockSize+1)
+	}
+	sizes = append(sizes, aroundBlocks...)
+	for _, size := range sizes {
 		data := dr.Bytes(size)
 		for _, sc := range c35Schedules(dr, size) {
 			streamCase(uint64(3000+size), data, sc)
 		}
 	}
+	// re-entrancy: concurrent callers of one CRC variant, of all variants, and of the streaming hasher
+	for i, alg := range []string{"crc32", "crc32c", "crc64nvme", "", ""} {
+		combConcCase(uint64(4000+i), verifx.NewRng(uint64(0xC35C0+i)), 8, 60, alg)
+	}
+	streamConcCase(4100, verifx.NewRng(0xC35D0), 6, aroundBlocks)
+	streamConcCase(4101, verifx.NewRng(0xC35D1), 8, []int{0, 1, 4095, c35BlockSize, 2 * c35BlockSize, 70000})
 
 	// ---------------- generated cases ----------------
 	for c := 0; c < f.Cases; c++ {
@@ -455,6 +608,14 @@ func runC35(args []string) {
 			combBigCase(seed, c35Pattern(r, c35Size(r, max)), c35Pattern(r, c35Size(r, max)))
 		case w < 80: // combine, arbitrary registers and lengths
 			combTieCase(seed, r, int64(r.Next()>>uint(1+r.Intn(63))))
+		case w < 82: // concurrent combiners
+			alg := ""
+			if r.Bool() {
+				alg = verifx.Pick(r, c35Algs)
+			}
+			combConcCase(seed, r, 2+r.Intn(7), 15+r.Intn(30), alg)
+		case w < 84: // concurrent streaming hashers
+			streamConcCase(seed, r, 2+r.Intn(5), []int{r.Intn(4) * c35BlockSize, r.Intn(3*c35BlockSize) + 1, c35Size(r, 4096), r.Intn(4)*c35BlockSize + 1})
 		default: // streaming
 			var size int
 			switch r.Intn(4) {
